@@ -688,4 +688,4 @@ def check_thorough(ctx):
     ctx.count('sibling_obligations_informational', len(side.obs))
 
 
-CLAUSE += '; serde_json is resolved without a magic-token feature (arbitrary_precision / raw_value) in the closure of the SQL store'
+CLAUSE += ' Also: serde_json is resolved without a magic-token feature (arbitrary_precision / raw_value) in the closure of the SQL store.'
